@@ -1,23 +1,42 @@
 (* C09 - Object-writer protocol: open, writes, exactly one terminal call, nothing after. *)
-From FluteV Require Import Model.ObjRecv Model.Recv Spec.RecvSpec Proofs.RecvProofs.
+From FluteV Require Import Model.ObjRecv Model.Recv Spec.RecvSpec Proofs.RecvProofs Proofs.C09Full.
 Open Scope N_scope.
 
-(* Full statement (kept visible): for every sequence of receiver events (packets of any content and
-   order, cleanups, drop) and every behaviour of the writer builder and the writers (oracles in
-   [E]), the calls each writer received form  open . write* . (complete | error | interrupted)?  -
-   P_C09_writer - and after the receiver is dropped every opened writer has its terminal call.
-   Evaluated on the implementation's callbacks on every run (all histories of the receiver
-   harness x builder/open/write scripts x drop at any point); proved so far through the
-   mechanisms below (partial). *)
-Definition C09_writer_protocol_full : Prop :=
+(* Full statement, proved of the model: for every sequence of receiver events (packets of any
+   content and order, cleanups, drop) and every behaviour of the writer builder and the writers
+   (oracles in [E]), the calls each writer received form
+   open . write* . (complete | error | interrupted)?  - P_C09_writer - and after the receiver is
+   dropped every opened writer has its terminal call.  No hypothesis on the history, the
+   configuration or the oracles.  (Also evaluated on the implementation's callbacks on every run:
+   all histories of the receiver harness x builder/open/write scripts x drop at any point.)
+   Proof: Proofs/C09Full.v - object invariant (the phase computed by c09_run over the writer's
+   calls matches the object's writer state; a terminated writer's object has left the receiving
+   state and holds no cache), frame (calls only go to the object's own writer, ids (toi, n) are
+   fresh because n comes from a counter that only grows), lifted to the receiver's object map. *)
+Theorem C09_writer_protocol_full :
   forall E parse_fdt cfg evs,
     let '(_, _, c) := recv_run E parse_fdt cfg recv0 evs ctx0 in
     forall w, P_C09_writer None false (calls_of w (c_log c)) = true.
+Proof. exact writer_protocol_history. Qed.
+Print Assumptions C09_writer_protocol_full.
 
-Definition C09_drop_terminates_all_full : Prop :=
+Theorem C09_drop_terminates_all_full :
   forall E parse_fdt cfg evs,
     let '(_, _, c) := recv_run E parse_fdt cfg recv0 (evs ++ [RvDrop]) ctx0 in
     forall w, P_C09_writer None true (calls_of w (c_log c)) = true.
+Proof. exact drop_terminates_all_history. Qed.
+Print Assumptions C09_drop_terminates_all_full.
+
+(* object level, the step the history theorem is built from: pushing a packet to / attaching an
+   FDT instance to an object that satisfies the invariant extends the log only with calls to the
+   object's own writer, accepted by the protocol automaton, and re-establishes the invariant *)
+Theorem C09_or_push_preserves : forall E p o c, Pre o c -> ExtP o c (or_push E p o c).
+Proof. exact or_push_ext. Qed.
+Print Assumptions C09_or_push_preserves.
+
+Theorem C09_or_attach_preserves : forall E id files ioti o c, Pre o c -> ExtA o c (or_attach E id files ioti o c).
+Proof. exact or_attach_ext. Qed.
+Print Assumptions C09_or_attach_preserves.
 
 (* (1) nothing after the terminal call: an object that has left the receiving state ignores every
    further packet - no callback, no state change *)
